@@ -274,3 +274,42 @@ def c14_names(chk, vts):
                     chk.fail('C14-U', construct, 'name %r is not an upper-case identifier' % key,
                              vt.loc(table, key), key='C14-U|%s' % construct)
     chk.count('names checked', n)
+
+
+def own_package_imports(chk, root, rule):
+    """Every module of a version package hl7apy/v2_X takes its tables from its own package: an import of another version's
+    SEGMENTS / FIELDS / DATATYPES / GROUPS makes two look-up paths of the same version disagree (by-name look-up uses the
+    package's own table, the structures embedded in GROUPS / MESSAGES the foreign one)."""
+    import ast
+    import glob
+    import os
+    import re
+    n = 0
+    for d in sorted(glob.glob(os.path.join(root, 'hl7apy', 'v2_*'))):
+        own = os.path.basename(d)
+        for f in sorted(glob.glob(os.path.join(d, '*.py'))):
+            try:
+                tree = ast.parse(open(f).read())
+            except SyntaxError as e:
+                raise AnalysisError('cannot parse %s: %s' % (f, e))
+            rel = os.path.relpath(f, root)
+            for st in ast.walk(tree):
+                mods = []
+                if isinstance(st, ast.ImportFrom):
+                    mods = [(st.module or '', st.level)]
+                elif isinstance(st, ast.Import):
+                    mods = [(a.name, 0) for a in st.names]
+                for m, lvl in mods:
+                    n += 1
+                    other = re.findall(r'v2_\d+(?:_\d+)?', m)
+                    foreign = [o for o in other if o != own] or ([m] if lvl >= 2 and m.startswith('v2_') and m.split('.')[0] != own else [])
+                    TABLE_MODS = ('segments', 'fields', 'datatypes', 'groups', 'messages', 'tables')
+                    TABLE_NAMES = ('SEGMENTS', 'FIELDS', 'DATATYPES', 'DATATYPES_STRUCTS', 'GROUPS', 'MESSAGES', 'TABLES', 'ELEMENTS')
+                    names = [a.name for a in st.names] if isinstance(st, ast.ImportFrom) else []
+                    is_table = m.split('.')[-1] in TABLE_MODS or any(x in TABLE_NAMES for x in names)
+                    if foreign and is_table:      # (datatype *classes* are legitimately shared between 2.7 and 2.8.x)
+                        chk.fail(rule, '%s imports from its own version package' % rel,
+                                 'imports `%s`: tables of %s are used inside %s' % (m, foreign[0], own), '%s:%d' % (rel, st.lineno),
+                                 key='%s|%s|%s' % (rule, rel, foreign[0]))
+    chk.ok(rule, 'imports of the version packages examined: %d' % n, '', key='%s|scan' % rule)
+    chk.floor('import statements in the version packages', n, 60)
